@@ -24,7 +24,7 @@ SKIP_OPS = {"tail", "parts", "repart", "shuffle"}     # no pandas meaning / layo
 
 def replay(case):
     q, sc = case["q"], case["sc"]
-    tabs = rel.make_tables(case["dseed"], nrows=(case["nrows"], 5))
+    tabs = rel.make_tables(case["dseed"], nrows=(case["nrows"], 5), presorted=case.get("presorted", False))
     ref = rel.observe(lambda: rel.build(q, tabs, "pandas"))
     results = [ref]
     obs = []
@@ -33,7 +33,9 @@ def replay(case):
         try:
             env = rel.dask_sources(tabs, {"T1": ("cuts", cuts, known), "T2": ("from_pandas", np2)})
             coll = rel.build(q, env, "dask")
-            r = rel.observe(lambda: rel.run_compute(coll))
+            # the partitions of the optimized collection, concatenated: what persist() / to_delayed() / any
+            # partition-wise consumer sees (compute() would first collapse everything into one partition)
+            r = rel.observe(lambda: rel.run_stage(coll, "fused"))
         except Exception as ex:
             r = {"ok": False, "err": type(ex).__name__, "msg": str(ex)[:150]}
         results.append(r)
@@ -56,7 +58,7 @@ def cum_input_allnull_partition(case, lay):
             if node["op"] == "cum":
                 targets.append(node["c"][0])
             node = node["c"][0]
-        tabs = rel.make_tables(case["dseed"], nrows=(case["nrows"], 5))
+        tabs = rel.make_tables(case["dseed"], nrows=(case["nrows"], 5), presorted=case.get("presorted", False))
         env = rel.dask_sources(tabs, {"T1": ("cuts", lay["cuts"], lay["known"]), "T2": ("from_pandas", lay["np2"])})
         for target in targets:
             x = rel.build(target, env, "dask")
@@ -67,6 +69,42 @@ def cum_input_allnull_partition(case, lay):
         return False
     except Exception:
         return False
+
+
+def _unsorted_all_degenerate(tr, c, flags):
+    """True iff every observation of the trace that is NOT sorted by the program's sort key belongs to a layout whose
+    sort input has a partition without non-null key (F27)"""
+    q = c["q"]
+    node = q
+    while node["op"] in ("filter", "dropna", "head"):
+        node = node["c"][0]
+    cols = tr["sc"]["cols"]
+    if node["op"] == "sort":
+        pos = [1 + cols.index(k) for k in node["by"]]
+        asc = bool(node["asc"])
+    else:
+        pos, asc = [0], True
+    NULL = rel.NULL
+
+    def leq(r, s):
+        for p in pos:
+            if r[p] == s[p]:
+                continue
+            if s[p] == NULL:
+                return True
+            if r[p] == NULL:
+                return False
+            return r[p] <= s[p] if asc else r[p] >= s[p]
+        return True
+
+    for o, fl in zip(tr["obs"], flags):
+        if not o["res"]["ok"]:
+            continue
+        rows = [r for r in o["res"]["t"]["rows"] if r[pos[0]] != NULL]
+        unsorted = any(not leq(rows[i], rows[i + 1]) for i in range(len(rows) - 1))
+        if unsorted and not fl:
+            return False
+    return True
 
 
 def run(tier="quick", seed=0, replay_path=None):
@@ -99,6 +137,9 @@ def run(tier="quick", seed=0, replay_path=None):
                     if l["known"] and (len(set(l["cuts"])) != len(l["cuts"]) or 0 in l["cuts"] or t["nrows"] in l["cuts"]):
                         l["known"] = False
             cases.append({"q": c["q"], "sc": c["sc"], "dseed": rnd.randrange(4), "nrows": t["nrows"], "layouts": lays})
+            if {"sort", "setindex"} & set(rel.ops_of(c["q"])):
+                # the same program on a table already ordered by k: presorted fast paths, equal keys across borders
+                cases.append({"q": c["q"], "sc": c["sc"], "dseed": rnd.randrange(4), "nrows": t["nrows"], "layouts": lays, "presorted": True})
     for i, c in enumerate(cases):
         c["tid"] = i
     chk.evaluations = sum(len(c["layouts"]) for c in cases)
@@ -132,8 +173,20 @@ def run(tier="quick", seed=0, replay_path=None):
             label, _, cl = clause.rpartition(":")
             lay = next((l for l, o in zip(c["layouts"], tr["obs"]) if o["label"] == label), None)
             # report every failing layout of this program? the validator names the first; keep the case small
-            pub = {"q": c["q"], "sc": c["sc"], "dseed": c["dseed"], "nrows": c["nrows"], "layouts": [lay] if lay else c["layouts"][:1],
+            pub = {"q": c["q"], "sc": c["sc"], "dseed": c["dseed"], "nrows": c["nrows"], "presorted": c.get("presorted", False), "layouts": [lay] if lay else c["layouts"][:1],
                    "ops": rel.ops_of(c["q"]), "layout": lay, "groupby_fs": rel.groupby_fs(c["q"])}
+            if cl == "Sorted" or (not label and clause == "Sorted"):
+                # which layouts of this program feed the sort a partition without any non-null key? (F27)
+                flags = []
+                tabs = rel.make_tables(c["dseed"], nrows=(c["nrows"], 5), presorted=c.get("presorted", False))
+                for l in c["layouts"]:
+                    env = rel.dask_sources(tabs, {"T1": ("cuts", l["cuts"], l["known"]), "T2": ("from_pandas", l["np2"])})
+                    flags.append(rel.sort_input_nullkey_partition(c["q"], env))
+                # the Sorted clause is evaluated over all layouts of the program: attribute it to F27 only if every
+                # layout whose observation is unsorted is degenerate -> re-check sortedness per layout here
+                pub["layouts"] = [l for l, fl in zip(c["layouts"], flags) if not fl][:3]
+                pub["sort_input_nullkey_partition"] = any(flags)
+                pub["unsorted_layouts_all_degenerate"] = _unsorted_all_degenerate(tr, c, flags)
             if "cum" in pub["ops"] and lay:
                 pub["cum_input_allnull_partition"] = cum_input_allnull_partition(c, lay)
             chk.fail(cl if label else clause, pub, {"label": label, "msg": tr["msgs"].get(label, ""), "n_layouts": len(c["layouts"])})
